@@ -1,7 +1,3 @@
 package sim
 
-func checkC04(v *tunView, m *connModel) {}
-func checkC05(v *tunView, m *connModel) {}
-func checkC09(v *tunView, m *connModel) {}
-func checkC10(v *tunView, m *connModel) {}
-func runTunnelTCP(r *tunRun)            {}
+func runTunnelTCP(r *tunRun) {}
